@@ -3,6 +3,12 @@ From Coq Require Import ZArith List Bool Arith Lia.
 Require Import Verif.Gen.Gen_reusable_vector Verif.RV.RVModel Verif.RV.RVLoops.
 Import ListNotations.
 
+Ltac cases := repeat (match goal with
+  | |- context [Nat.leb ?a ?b] => destruct (Nat.leb_spec a b)
+  | |- context [Nat.ltb ?a ?b] => destruct (Nat.ltb_spec a b)
+  | |- context [Nat.eqb ?a ?b] => destruct (Nat.eqb_spec a b)
+  end; simpl; try lia); auto.
+
 (* ---- lists ------------------------------------------------------------------------------------------ *)
 Lemma nth_firstn_lt (l : list Z) : forall n j, j < n -> nth j (firstn n l) 0%Z = nth j l 0%Z.
 Proof. induction l; intros [|n] [|j] H; simpl; auto; try lia. apply IHl; lia. Qed.
